@@ -96,6 +96,9 @@ def run_tlc(spec, cfg=None, workers=None, timeout=600, extra_modules=(),
         cmd += ["-coverage", "1"]
     if simulate is not None:
         cmd += ["-simulate", simulate]
+        for part in simulate.split(","):
+            if part.startswith("file="):
+                os.makedirs(os.path.join(work, os.path.dirname(part[5:])), exist_ok=True)
     if depth is not None:
         cmd += ["-depth", str(depth)]
     if seed is not None:
